@@ -100,7 +100,7 @@ ASSUMPTIONS = [
     "subdomain_data objects are harness objects with ufl_id(); integrals carrying them are not eval(repr)-ed",
 ]
 BUDGET = {"quick": 60, "thorough": 330}
-NCASES = {"quick": 4000, "thorough": 160000}
+NCASES = {"quick": 4000, "thorough": 120000}
 WORKERS = {"quick": 16, "thorough": 16}
 EVAL_COUNTER = "pairs"
 FLOORS = {
@@ -125,23 +125,23 @@ FLOORS = {
         "families": 29,
     },
     "thorough": {
-        "pairs": 12000000,
+        "pairs": 10000000,
         "near_miss_pairs": 200000,
         "near_miss_unequal_ok": 200000,
-        "identical_pairs": 800000,
-        "eq_true": 800000,
-        "triples": 10000000,
-        "snapshots_rechecked": 900000,
+        "identical_pairs": 600000,
+        "eq_true": 600000,
+        "triples": 8000000,
+        "snapshots_rechecked": 700000,
         "container_lookups": 8000,
-        "pickle_roundtrips": 150000,
-        "evalrepr_roundtrips": 75000,
+        "pickle_roundtrips": 120000,
+        "evalrepr_roundtrips": 60000,
         "xproc_objects": 200,
         "xproc_objects_other-hashseed": 100,
         "xproc_objects_same-hashseed": 100,
-        "mutants": 250000,
-        "regenerated_twins": 30000,
-        "cases": 70000,
-        "case_forms": 17000,
+        "mutants": 180000,
+        "regenerated_twins": 25000,
+        "cases": 60000,
+        "case_forms": 13000,
         "families": 29,
     },
 }
@@ -290,7 +290,9 @@ def node_tag(o):
         for x in (v.real, v.imag):
             if x != x or math.isinf(x):
                 return "-nonfinite"
-        if (v.real == 0 and math.copysign(1, v.real) < 0) or (v.imag == 0 and math.copysign(1, v.imag) < 0):
+        sign = lambda z: (math.copysign(1, z.real), math.copysign(1, z.imag))
+        if (v.real == 0 and sign(v)[0] < 0) or (v.imag == 0 and sign(v)[1] < 0) or sign(eval(repr(v))) != sign(v):
+            # python's own repr of a complex number does not round-trip the sign of a zero part
             return "-signed-zero"
     return ""
 
@@ -1247,7 +1249,7 @@ def run_family(ctx, mk):
         viol(ctx, f"C13/eq-raises/container/{F.name}", f"set/dict of the family raises {type(ex).__name__}: {str(ex)[:160]}")
     # round trips
     for P in parts:
-        if P.twin == 0 and "wrap" not in P.data:
+        if P.twin == 0 and ("wrap" not in P.data or (P.tag and P.data["wrap"] == "listtensor")):
             has_sd = "SD(" in P.rep
             roundtrips(ctx, P, do_eval=F.evalrepr and not has_sd)
             if has_sd or not F.evalrepr:
@@ -1463,10 +1465,10 @@ def near_miss_terminal(t, U, rng, other_mesh):
 
 
 def case(ctx, i, rng):
-    cell, gdim, itype, cplx = CONFIGS[i % len(CONFIGS)]
+    cell, gdim, itype, cplx = rng.choice(CONFIGS)
     U = Universe(rng, cell, gdim, itype, cplx)
     other_mesh = Mesh(U.mesh.ufl_coordinate_element(), ufl_id=U.mesh.ufl_id() + 100000)
-    kind = "form" if i % 4 == 3 else "expr"
+    kind = "form" if rng.random() < 0.25 else "expr"
     depth = rng.choice([1, 2, 2, 3, 3, 4]) if kind == "expr" else rng.choice([1, 2, 2, 3])
     shape = rng.choice([(), (), (), (gdim,), (2,), (3,), (2, 2), (gdim, gdim), (2, 3)])
     arity = rng.choice([0, 1, 2])
